@@ -43,6 +43,8 @@ def elem_kinds(g):
         "dynstruct": dyn_struct,
         "array": lambda: N_array(N_int(g.r.choice(["uint8", "uint16", "uint24"])), L_fixed(g.r.randint(1, 3))),
         "chararray": lambda: N_array(N_char(), L_fixed(g.r.randint(1, 3))),
+        # an inner dimension that is an expression over a field of the structure: every element needs the context
+        "exprarray": lambda: N_array(N_int(g.r.choice(["uint8", "uint16", "uint24"])), L_expr(g.r.choice(["m & 3", "m", "(m & 1) + 1"]))),
         "ptr": lambda: N_ptr(N_int("uint8")),
     }
 
